@@ -80,4 +80,14 @@ VARIANTS = [
         "DefaultTransitionInfo(position_moved=do_accept, error_code=error_code, "
         "acceptance_prob=acceptance_prob)"),
       note="keyword arguments"),
+    V("c05_rw_moved_rederived", "M", "liesel/goose/rw.py", "RWKernel._standard_transition",
+      lambda nd: isinstance(nd, ast.Return),
+      lambda nd: stmt("info.position_moved = jax.numpy.any(jax.flatten_util.ravel_pytree("
+                      "self.position(model_state))[0] != flat_position)") + [nd],
+      note="moved flag re-derived from a float comparison of positions (rounding / NaN)",
+      expect_rule="C05.R5"),
+    V("c05_mh_kernel_prob_clipped", "M", "liesel/goose/mh_kernel.py", "MHKernel._standard_transition",
+      lambda nd: isinstance(nd, ast.Return),
+      lambda nd: stmt("info.acceptance_prob = jax.numpy.clip(info.acceptance_prob, 0.01, 1.0)") + [nd],
+      note="reported acceptance probability edited after the decision", expect_rule="C05.R5"),
 ]
